@@ -4,7 +4,7 @@
  *   cfg comp=.. level=.. dict=<blob> uncomp=.. chash=.. fhash=.. manual=.. min=.. max=..
  *   content <blob>
  *   read <schedules>         e.g. "1;7;32768;1,5,2" ; "-" disables the read-back
- *   closefds <n>             close descriptors 0..n-1 before zck_init_write (0 = none)
+ *   closemask <bits>         close descriptor i (0..2) before zck_init_write when bit i is set (closefds <n> = bits 0..n-1)
  *   save <dir>               large outputs are stored as <dir>/<sha256>.zck
  *   hist <ops>               one case.  ops: w<n> write next n bytes, W write all remaining, e end chunk,
  *                            comma separated; the remaining content is NOT written implicitly
@@ -52,7 +52,7 @@ static void run_one(int idx, FILE *out, void *vctx) {
         real_close(ofd);
         ofd = hi;
         fflush(NULL);
-        for(int i = 0; i < k->closefds; i++) real_close(i);
+        for(int i = 0; i < 3; i++) if(k->closefds >> i & 1) real_close(i);
     }
     zckCtx *zck = zck_create();
     if(!zck) die("zck_create");
@@ -117,9 +117,10 @@ static void run_one(int idx, FILE *out, void *vctx) {
     if(cl && (readback || k->meta)) {
         /* reopen stdio descriptors so later diagnostics do not land in data files */
         if(k->closefds > 0) {
-            for(int i = 0; i < k->closefds && i < 3; i++) {
+            for(int i = 0; i < 3; i++) {
+                if(fcntl(i, F_GETFD) != -1) continue;
                 int nfd = open("/dev/null", O_RDWR);
-                (void)nfd;
+                if(nfd != i) { dup2(nfd, i); real_close(nfd); }
             }
         }
         real_lseek(ofd, 0, SEEK_SET);
@@ -164,7 +165,8 @@ int cmd_writehist(FILE *job, FILE *out) {
         if(!strcmp(t[0], "cfg")) wcfg_parse(&cur.cfg, t + 1, n - 1);
         else if(!strcmp(t[0], "content")) cur.content = blob_arg(t[1]);
         else if(!strcmp(t[0], "read")) cur.scheds = strdup(t[1]);
-        else if(!strcmp(t[0], "closefds")) cur.closefds = atoi(t[1]);
+        else if(!strcmp(t[0], "closefds")) cur.closefds = (1 << atoi(t[1])) - 1;
+        else if(!strcmp(t[0], "closemask")) cur.closefds = atoi(t[1]);
         else if(!strcmp(t[0], "save")) cur.save = strdup(t[1]);
         else if(!strcmp(t[0], "plan")) cur.nplan = parse_plan(t[1], cur.plan, 8);
         else if(!strcmp(t[0], "trace")) cur.trace = atoi(t[1]);
